@@ -562,6 +562,8 @@ class BaseNode402(RemoteNode):
                             'FAULT'):
             raise ValueError(
                 f'Target state {target_state} cannot be entered programmatically')
+        if target_state not in State402.SW_MASK:
+            raise ValueError(f'Target state {target_state} is not a valid state')
         from_state = self.state
         if (from_state, target_state) in State402.TRANSITIONTABLE:
             return target_state
